@@ -1,6 +1,7 @@
 import PharmpyModel.Core.Sexp
 import PharmpyModel.C04.Theta
 import PharmpyModel.C04.Omega
+import PharmpyModel.C04.OmegaDiag
 open Pharmpy Pharmpy.C04
 
 /-! Line-protocol driver of C04 (plumbing only). -/
@@ -10,11 +11,12 @@ def bad : Sexp := .list [.atom "err", .atom "bad-op"]
 def kOf? : String → Option K
   | "lpar" => some .lpar | "rpar" => some .rpar | "comma" => some .comma | "ws" => some .ws
   | "fix" => some .fix | "low" => some .low | "init" => some .init | "up" => some .up
-  | "rep" => some .rep | "other" => some .other | _ => none
+  | "rep" => some .rep | "other" => some .other | "sd" => some .sd | "var" => some .var | _ => none
 
 def kStr : K → String
   | .lpar => "lpar" | .rpar => "rpar" | .comma => "comma" | .ws => "ws" | .fix => "fix"
   | .low => "low" | .init => "init" | .up => "up" | .rep => "rep" | .other => "other"
+  | .sd => "sd" | .var => "var"
 
 def val? : Sexp → Option Val
   | .atom "ninf" => some .ninf
@@ -78,6 +80,42 @@ def allHaveInit : List RNode → Bool
 
 /-! omega side -/
 
+def dnode? : Sexp → Option DNode
+  | .list [.atom "item", cs] => do
+    let xs ← cs.asList?
+    some (.item (← xs.mapM tnode?))
+  | .list [.atom "tok", t] => do some (.tok (← tnode? t))
+  | .list [.atom "diagonal", t] => do some (.diagonal (← tnode? t))
+  | _ => none
+
+def dnodeS : DNode → Sexp
+  | .item cs => .list [.atom "item", .list (cs.map tnodeS)]
+  | .tok t => .list [.atom "tok", tnodeS t]
+  | .diagonal t => .list [.atom "diagonal", tnodeS t]
+
+def drec? (x : Sexp) : Option (List DNode) := do
+  let xs ← x.asList?
+  xs.mapM dnode?
+
+def oparam? : Sexp → Option OParam
+  | .list [v, .atom s, f] => do some { raw := ← val? v, rawS := s, fix := ← f.asBool? }
+  | _ => none
+
+def oparams? (x : Sexp) : Option (List OParam) := do
+  let xs ← x.asList?
+  xs.mapM oparam?
+
+def derrS : DErr → String
+  | .noInit => "noInit" | .sdAndVar => "sdAndVar" | .zeroNotFix => "zeroNotFix"
+
+def dparsedS (q : DParsed) : Sexp := .list [valS q.raw, Sexp.ofBool q.sd, Sexp.ofBool q.fix]
+
+def dAllHaveInit : List DNode → Bool
+  | [] => true
+  | .item cs :: r => hasK .init cs && dAllHaveInit r
+  | _ :: r => dAllHaveInit r
+
+
 def qval? : Sexp → Option Q
   | .list [n, d] => do
     let n ← n.asInt?
@@ -119,6 +157,29 @@ def handle (req : Sexp) : Sexp :=
   | .list [.atom "len", r] =>
     match rec? r with
     | some r => Sexp.ofNat (recLen r)
+    | _ => bad
+  | .list [.atom "dupdate", r, ps] =>
+    match drec? r, oparams? ps with
+    | some r, some ps =>
+      if !dAllHaveInit r then .list [.atom "err", .atom "NoInit"]
+      else if updDiagIndexError r ps then .list [.atom "err", .atom "IndexError"]
+      else .list [.atom "ok", .list ((updDiag r ps).map dnodeS)]
+    | _, _ => bad
+  | .list [.atom "dremove", r, inds] =>
+    match drec? r, inds.asList? with
+    | some r, some is => match is.mapM Sexp.asNat? with
+      | some is => .list ((removeDiag r is).map dnodeS)
+      | none => bad
+    | _, _ => bad
+  | .list [.atom "dparse", r] =>
+    match drec? r with
+    | some r => match parseDiag r with
+      | .ok qs => .list [.atom "ok", .list (qs.map dparsedS)]
+      | .error e => .list [.atom "err", .atom (derrS e)]
+    | _ => bad
+  | .list [.atom "dlen", r] =>
+    match drec? r with
+    | some r => Sexp.ofNat (diagLen r)
     | _ => bad
   | .list [.atom "tocov", sd, corr, size, xs] =>
     match sd.asBool?, corr.asBool?, size.asNat?, qlist? xs with
